@@ -9,6 +9,7 @@
    Cli.accepted_names) now gives the source's result: same file system, same status — here by computation, for
    every archive by SrcTie3Cli.extract_linear_sim.  Hostile archives only (the writer never re-uses an id).
    Tie B: job c16, cases `reuse-id-*` (the real `mlar extract` on these bytes behind a header and a footer). *)
+From MLA Require Import Limit.
 From MLA Require Import Base Stream Blocks Reader Path Pool Cli CliExtract SrcTie3Reader.
 From MLAGen Require Src3d Src3l Src3x.
 Import Coq.Strings.String.StringSyntax.
